@@ -401,6 +401,12 @@ class Parser:
         )
         right = self.parse_filter_expression(stream, precedence=self.PRECEDENCE_PREFIX)
         self._raise_for_uncompared_function(right, tok)
+        if isinstance(right, FilterExpressionLiteral):
+            raise JSONPathSyntaxError(
+                "filter expression literals outside of "
+                "function expressions must be compared",
+                token=right.token,
+            )
         return PrefixExpression(tok, operator="!", right=right)
 
     def parse_infix_expression(
